@@ -740,6 +740,7 @@ def threads_shard(arg):
 
 def run(tier, seed, work):
     res = vp.Result("C01", tier, seed, "exploration")
+    res.after_error_routes = ['refused_requests_compared']      # routes added in round 12 (a handled failure followed by ordinary work): must have observed something
     for d in vp.pmap(threads_shard, [(s, work) for s in vp.split(list(range(16 if tier == "quick" else 160)), 4)]):
         res.merge(d)
     res.required = ["route_threads"]
@@ -765,6 +766,7 @@ def run(tier, seed, work):
     res.assumptions = ["restore between builds is simulated from the files actually on disk: cache=true keeps dir+SBOMs+toml without [types]; launch-only keeps the toml; others vanish",
                        "for uncached_layer the expected cause is NewlyCreated for an absent layer and RestoredLayerAction for an existing one (its fixed internal callbacks)",
                        "writes go through the most recent LayerRef of a layer, obtained in the current build"]
+    res.required = list(getattr(res, "required", [])) + res.after_error_routes
     return res
 
 
